@@ -51,6 +51,12 @@ EXTRA = {
                     "UNIQUE (customer_identifier_for_the_billing_period, billing_period_start_date_in_the_local_zone));"],
     # SET with variable names that start with '@'
     "set_at": ["SET @batch_id = 42;", "SET @@session.sql_mode = ANSI;"],
+    # a database with a tablespace clause (an entity that also carries a tablespace record), a SET with a value list
+    "db_tablespace": ["CREATE DATABASE dbt{i} TABLESPACE ts{i};"],
+    "set_list": ["SET search_path = public, pg_catalog;"],
+    # a key column renamed by ALTER; a table whose name starts with '#'
+    "rename_pk": ["CREATE TABLE rp{i} (listid int, sellerid int, PRIMARY KEY (listid, sellerid));", "ALTER TABLE rp{i} RENAME COLUMN listid TO listing_id;"],
+    "hash_table": ["CREATE TABLE #stage{i} (a int);", "CREATE TABLE dbo.#tmp{i} (b int);"],
     # hive bucketing / skew clauses (fields of the HQL class itself)
     "hql_buckets": ["CREATE TABLE hb{i} (a int, b string) CLUSTERED BY (a) INTO 32 BUCKETS SKEWED BY (a) ON (1, 2) STORED AS ORC;"],
     # the same table id twice (DROP + CREATE, two spellings, a TEMPORARY twin) together with ALTER / INDEX statements that address it
@@ -61,7 +67,7 @@ EXTRA = {
     "partition": ["CREATE TABLE pt{i} (a int, b date) PARTITION BY RANGE (b);"],
     "partitioned": ["CREATE TABLE pd{i} (a int, b string) PARTITIONED BY (dt string, hr int);"],
 }
-EXTRA_KIND = {"set_at": "ddl_properties", "seq_value_pair": "sequences", "seq_comments_pair": "sequences", "type_value_pair": "types", "obj_params": "types", "clone_db": "databases", "clone_schema": "schemas", "set2": "ddl_properties", "set_empty": "ddl_properties", "set_empty2": "ddl_properties"}
+EXTRA_KIND = {"set_at": "ddl_properties", "db_tablespace": "databases", "set_list": "ddl_properties", "seq_value_pair": "sequences", "seq_comments_pair": "sequences", "type_value_pair": "types", "obj_params": "types", "clone_db": "databases", "clone_schema": "schemas", "set2": "ddl_properties", "set_empty": "ddl_properties", "set_empty2": "ddl_properties"}
 
 
 def all_kinds():
